@@ -49,8 +49,7 @@ def replay(script_text, warp, tmp, via_stdin=False, delay=None):
     if via_stdin:
         return replay_stdin(script_text, warp, delay)
     clock = task.Clock()
-    old = vclient.reactor
-    vclient.reactor = clock
+    old = use_reactor(clock); old.__enter__()
     try:
         c, trace = connect()
         stamped = []
@@ -76,7 +75,7 @@ def replay(script_text, warp, tmp, via_stdin=False, delay=None):
     except Exception as e:  # noqa
         return None, "script rejected: %s %s" % (type(e).__name__, e)
     finally:
-        vclient.reactor = old
+        old.__exit__(None, None, None)
 
 
 def replay_stdin(script_text, warp, delay=None):
@@ -84,14 +83,13 @@ def replay_stdin(script_text, warp, delay=None):
     import io, sys
     from unittest import mock
     clock = task.Clock()
-    old = vclient.reactor
-    vclient.reactor = clock
+    old = use_reactor(clock); old.__enter__()
     try:
         c, trace = connect()
         stamped = []
         c.transport.write = lambda data: stamped.append((clock.seconds(), bytes(data)))
         opts = mock.Mock(verbose=0, delay=delay, warp=warp, incremental_refreshes=False, host="h", port=1, address_family=0)
-        with mock.patch.object(command, "factory_connect", lambda *a: None), mock.patch.object(command, "reactor", mock.Mock()), \
+        with mock.patch.object(command, "factory_connect", lambda *a: None), use_reactor(mock.Mock()), \
                 mock.patch.object(sys, "stdin", io.StringIO(script_text)):
             try:
                 fac = command.build_tool(opts, ["-"])
@@ -116,7 +114,7 @@ def replay_stdin(script_text, warp, delay=None):
     except Exception as e:  # noqa
         return None, "script rejected on stdin: %s %s" % (type(e).__name__, e)
     finally:
-        vclient.reactor = old
+        old.__exit__(None, None, None)
 
 
 def run(ctx):
